@@ -130,11 +130,16 @@ func canonLabel(l string) string {
 func showRec(rec rapid.VerifRec) string {
 	var b strings.Builder
 	b.WriteString("data=" + joinU64(rec.Data) + " groups=")
+	// labels are compared up to equality: "#k" = the first group carrying the same label
+	first := map[string]int{}
 	for i, g := range rec.Groups {
 		if i > 0 {
 			b.WriteString(";")
 		}
-		fmt.Fprintf(&b, "%d,%d,%s,%v,%v", g.Begin, g.End, canonLabel(g.Label), g.Standalone, g.Discard)
+		if _, ok := first[g.Label]; !ok {
+			first[g.Label] = i
+		}
+		fmt.Fprintf(&b, "%d,%d,%s#%d,%v,%v", g.Begin, g.End, canonLabel(g.Label), first[g.Label], g.Standalone, g.Discard)
 	}
 	return b.String()
 }
